@@ -3,6 +3,7 @@
 # verdict layout of step_verdict (coq/Monitors.v)
 NET, COMMIT, MEM, PROP, RES, STATE, HINT, FIRST = 1, 2, 3, 4, 5, 6, 7, 8
 M_C02, M_C03, M_C03G, M_C04, M_C05, M_C08, M_C09, M_C10, M_C15, M_C19, M_C06 = 9, 10, 11, 12, 13, 14, 15, 16, 17, 18, 19
+M_C06P = 23                 # every Make request is served by the block in the same step (MonitorsC06.v); entry 24 = number of Make requests
 M_C19C, M_C19T = 20, 21     # completeness of QC / TC assembly (MonitorsC19.v); entry 22 = number of steps at which they demanded something
 
 STEP_RULE = ('step mode: a real Core (+Synchronizer, MempoolDriver/PayloadWaiter, Proposer, Aggregator, RocksDB store) driven one dispatch at a time; '
@@ -20,10 +21,11 @@ def step_run(agree, monitors, quick=160, thorough=3000):
         return (agree, mons)
     return {'name': 'step', 'bin': 'step', 'mode': 'run', 'emit': 'step', 'quick': quick, 'thorough': thorough,
             'agree': agree, 'monitors': monitors, 'layout': layout, 'timeout': 2400, 'coq_timeout': 1800,
-            'counters': {'steps at which the completeness monitors of C19 demanded a certificate (quorum of distinct verified votes/timeouts reached)': 22}}
+            'counters': {'steps at which the completeness monitors of C19 demanded a certificate (quorum of distinct verified votes/timeouts reached)': 22,
+                         'Make requests handed to the proposer (each must be served by the block in that step)': 24}}
 
 
-NODE_VO = ['Node.vo', 'Corr.vo', 'Monitors.vo', 'MonitorsC19.vo', 'CorrMulti.vo', 'LeaderDefs.vo', 'QuorumDefs.vo', 'CorrComp.vo', 'CorrAgg.vo']
+NODE_VO = ['Node.vo', 'Corr.vo', 'Monitors.vo', 'MonitorsC19.vo', 'MonitorsC06.vo', 'CorrMulti.vo', 'LeaderDefs.vo', 'QuorumDefs.vo', 'CorrComp.vo', 'CorrAgg.vo']
 STEP_ASSUME = ['symbolic hashing: SHA-512/256 collision-free on the modelled pre-images and never all-zero (licensed by the C20 pre-image theorems)',
                'ideal signatures (EUF-CMA, strict verification) for Ed25519',
                'every task is a sequential process fed by FIFO channels; tokio/mpsc/RocksDB behave as documented',
@@ -170,7 +172,9 @@ PROPS = {
     'C14': {
         'vo': ['ReliableDefs.vo', 'CorrComp.vo', 'CorrReliable.vo'],
         'sites': [],
-        'corr': [{'name': 'reliable', 'bin': 'sock', 'mode': 'reliable', 'emit': 'reliable', 'realtime': True, 'quick': 40, 'thorough': 400, 'agree': [1, 2, 3], 'monitors': [4, 5, 6, 7, 8, 9], 'timeout': 300}],
+        'corr': [{'name': 'reliable', 'bin': 'sock', 'mode': 'reliable', 'emit': 'reliable', 'realtime': True, 'quick': 40, 'thorough': 400, 'agree': [1, 2, 3], 'monitors': [4, 5, 6, 7, 8, 9], 'timeout': 300},
+                 # the receiver side of the pairing contract: the REAL Receiver must end a connection on which its handler rejected a message
+                 {'name': 'recvpair', 'bin': 'recv', 'mode': 'pair', 'emit': 'recvpair', 'realtime': True, 'quick': 40, 'thorough': 400, 'agree': [], 'monitors': [1, 2, 3, 4], 'timeout': 300}],
         'rule': 'socket mode: the real ReliableSender (no tap) against a scripted loopback TCP peer speaking the real length-delimited framing: 2..4 connections per case made of down phases, full rounds, '
                 'early-close rounds and a final answer-everything round; sends, handle drops, replies, closes before/after any frame, refused connects, 7 MB frames to hit the write-error path; '
                 'the abstract event list is derived from what was observed; a case that times out is counted inconclusive, never as a disagreement',
@@ -200,7 +204,7 @@ PROPS['C06'] = {
     'vo': NODE_VO + ['LivenessDefs.vo'],
     'sites': ['g_advance_guard', 'g_advance_next', 'g_update_high_qc', 'g_timeout_stale', 'g_vote_stale', 'g_tcm_threshold', 'g_qcm_threshold', 'g_agg_keep_votes', 'g_agg_keep_timeouts', 'g_safety_rule_1', 'g_safety_rule_2', 'g_can_extend', 'g_can_extend_hq', 'g_two_chain', 'g_quorum_consensus'],
     'corr': [{'name': 'runloop', 'bin': 'runloop', 'mode': 'smoke', 'emit': 'runloop', 'quick': 24, 'thorough': 200, 'agree': [], 'monitors': list(range(1, 19)), 'timeout': 600},
-             step_run([NET, PROP, STATE, RES], [M_C10, M_C19, M_C06, M_C19C, M_C19T], quick=160)],
+             step_run([NET, PROP, STATE, RES], [M_C10, M_C19, M_C06, M_C19C, M_C19T, M_C06P], quick=160)],
     'rule': 'run-loop smoke: the REAL Core::spawn (select! loop and Timer) on a paused clock, committee of 4, random node and timeout delay, four scenarios per case (idle timeouts re-armed; proposal then timer reset on round change; '
             'TC assembled from three timeouts; invalid messages do not stop the loop); plus ' + STEP_RULE,
     'assumptions': STEP_ASSUME + ['PARTIAL: only the enabling side of liveness is a theorem; nothing involving real time, message-delay bounds versus the timeout, scheduler fairness or loss on best-effort links is proved (the model has no clock)'],
@@ -238,7 +242,7 @@ PROPS['C07'] = {
 
 for _p in ('C01', 'C02', 'C03', 'C04', 'C05', 'C08', 'C09', 'C10', 'C15', 'C19'):
     PROPS[_p]['anchors'] = CORE_ANCHORS
-for _p in ('C02', 'C03', 'C04', 'C05', 'C08', 'C09', 'C10', 'C15', 'C19'):
+for _p in ('C02', 'C03', 'C04', 'C05', 'C06', 'C08', 'C09', 'C10', 'C15', 'C19'):
     PROPS[_p]['extra_props'] = ['MonSound']     # each monitor evaluated on real traces is proved true on every run of the model
 PROPS['C11']['anchors'] = ['mempool/src/batch_maker.rs', 'mempool/src/processor.rs']
 PROPS['C12']['anchors'] = ['mempool/src/quorum_waiter.rs', 'mempool/src/config.rs', 'network/src/reliable_sender.rs']
